@@ -28,7 +28,7 @@ ASSUMPTIONS = ['same-build round trips only (the property claims nothing else)',
                'checked to be rejected with XSerializationException',
                'instance validity is known only approximately; the oracle is differential (A vs B vs C), the intent labels only feed the '
                'non-triviality measurement']
-BUDGET = {'quick': 60, 'thorough': 700}
+BUDGET = {'quick': 60, 'thorough': 500}
 WALLCAP = {'quick': 500, 'thorough': 2700}
 
 F_LOCKED = 'C16-locked-pool-stream'
